@@ -95,8 +95,8 @@ CLAIMED = {
          "present/absent optional parts, empty/one/two-element lists and block/single/nested/empty bodies at nesting depths 0-2 (about 860 instances), except under "
          "four preconditions (non-empty except/cases/import lists, no default on a vararg) each of which is established at every construction site or by a rejecting "
          "parser rule; bodies can never print as nothing; append_ret/append_assign wrap only variants whose template is a Python expression; string delimiters agree; "
-         "operands that need parentheses get them; output files are truncated. Five genuine defects found by these rules were repaired (D18, D37-D40).",
-         "That every literal lexeme the lexer accepts is a Python literal is not decided (it is not true: leading zeros, raw newlines in strings); identifiers that are Python keywords are not decided.", "5/C02"),
+         "operands that need parentheses get them; output files are truncated; strings end at their quote or with an error, integers lose leading zeros, string text is printed on one line, and no hard keyword of Python is available as a name. Nine genuine defects found by these rules were repaired (D18, D37-D44).",
+         "That every literal lexeme the lexer accepts is a Python literal is decided only for the shapes of R-C02-7 (escape sequences and quotes inside interpolations are not).", "5/C02"),
  "C04": ("traversal census of the constraint generator + constraint census + dispatch totality + operator->protocol-method agreement through the Node->NodeTy->Core->printer chain + strict-lookup Ok-path rule on MIR + stub signatures against a frozen CPython table",
          "Decides the structural necessary conditions of soundness: every AST child the generator takes apart is visited, delegated or rejected "
          "(317 rows; the unvisited ones are reviewed, 4 are genuine findings), every variant is dispatched to a handler arm, every operator is typed by "
